@@ -959,7 +959,7 @@ class SP(Robot):
         return np.copy(self.lengths), bottom_plate_pos, top_plate_pos
 
     def _FKSolve(self, L : 'np.ndarray[float]', plate_pos : tm = None, 
-            protect : bool = False):
+            protect : bool = False, fallback : bool = True):
         """
         Solve FK using an older version of python solver, no jacobian used.
         
@@ -971,6 +971,8 @@ class SP(Robot):
             L (ndarray(Float)): Goal leg lengths
             bottom_plate_pos (tm): bottom plate transformation in space frame
             protect (Bool): Boolean to bypass error detection and correction. Bypass if True
+            fallback (Bool): Whether the Raphson solver may be tried if this one fails.
+                False when this call is itself the fallback of the Raphson solver.
 
         Returns:
             tm: bottom plate transform
@@ -1004,15 +1006,34 @@ class SP(Robot):
                 #The solve failed: fall back to Raphson from the pose this call started at,
                 #not from whatever the failed solve left behind.
                 self.IK(top_plate_pos = start_top, bottom_plate_pos = plate_pos, protect = True)
-                return self._FKRaphson(L, plate_pos, protect)
+                if fallback:
+                    return self._FKRaphson(L, plate_pos, protect, fallback = False)
+                #Both solvers have had their turn; handing back and forth would never end
+                return self._FKGiveUp(plate_pos)
         #If not "Protected" from recursion, call IK.
         if not protect:
             self.IK(protect = True)
         return plate_pos, sol
 
 
+    def _FKGiveUp(self, bottom_plate_pos : tm):
+        """
+        Count a forward kinematics failure and put the platform back to its neutral pose.
+
+        Meant to be called internally only.
+        Args:
+            bottom_plate_pos (tm): bottom plate transformation in space frame
+        Returns:
+            tm: bottom plate transform
+            tm: top plate transform
+        """
+        self.fail_count += 1
+        self.IK(top_plate_pos = bottom_plate_pos @ self._nominal_plate_transform,
+                bottom_plate_pos = bottom_plate_pos, protect = True)
+        return self.getBottomT(), self.getTopT()
+
     def _FKRaphson(self, L : 'np.ndarray[float]', 
-            bottom_plate_pos : tm = None, protect : bool = False):
+            bottom_plate_pos : tm = None, protect : bool = False, fallback : bool = True):
         """
         Solve FK using Newton Raphson method.
 
@@ -1024,6 +1045,8 @@ class SP(Robot):
             bottom_plate_pos (tm): bottom plate transformation in space frame
             reverse (Bool): Boolean to reverse action. If true, treat the top plate as stationary.
             protect (Bool): Boolean to bypass error detection and correction. Bypass if True
+            fallback (Bool): Whether the scipy solver may be tried if this one raises.
+                False when this call is itself the fallback of the scipy solver.
 
         Returns:
             tm: bottom plate transform
@@ -1090,8 +1113,11 @@ class SP(Robot):
 
             if self.debug:# pragma: no cover
                 disp("Raphson FK Failed due to: " + str(e))
-            self.fail_count+=1
-            return self._FKSolve(L, bottom_plate_pos_backup, protect)
+            if fallback:
+                self.fail_count+=1
+                return self._FKSolve(L, bottom_plate_pos_backup, protect, fallback = False)
+            #Both solvers have had their turn; handing back and forth would never end
+            return self._FKGiveUp(bottom_plate_pos_backup)
 
     """
     Validation and Corrective Action Helpers
